@@ -439,7 +439,7 @@ func c15Ggqlgen(c *core.Ctx, bases []*sgen.Schema) {
 		if err != nil || back.Canonical(sgen.CanonOpts{}) != normalizeDescs(b).Canonical(sgen.CanonOpts{}) {
 			detail["diff"] = "rewritten file defines a different schema"
 			detail["rewritten"] = string(rewritten)
-			c.Violation("ggqlgen", map[string]string{"what": "schema-changed", "flag": "-w"}, detail)
+			c.Violation("ggqlgen", map[string]string{"what": "schema-changed", "flag": "-w", "model": c15ImplicitModel(b, back)}, detail)
 			continue
 		}
 		c.Outcome("ggqlgen-w-ok")
@@ -472,7 +472,7 @@ func c15Ggqlgen(c *core.Ctx, bases []*sgen.Schema) {
 		back, err = sgen.FromRoot(l.root, b.DirectiveNames())
 		if err != nil || back.Canonical(sgen.CanonOpts{}) != normalizeDescs(b).Canonical(sgen.CanonOpts{}) {
 			detail["diff"], detail["embedded"] = "embedded constant defines a different schema", embedded
-			c.Violation("ggqlgen", map[string]string{"what": "schema-changed", "flag": "-e"}, detail)
+			c.Violation("ggqlgen", map[string]string{"what": "schema-changed", "flag": "-e", "model": c15ImplicitModel(b, back)}, detail)
 			continue
 		}
 		c.Outcome("ggqlgen-e-ok")
@@ -508,4 +508,24 @@ func c15NumSchema(site string, x interface{}) *sgen.Schema {
 						{Name: "o", Type: N("In"), HasDef: true, Default: map[string]interface{}{"s": k("object-default", 5.5)}}}}}},
 		{Kind: sgen.KInput, Name: "In", Fields: []*sgen.Field{{Name: "s", Type: N("Float64"), HasDef: true, Default: k("input-field-default", 6.5)}}},
 	}}
+}
+
+// c15ImplicitModel attributes a ggqlgen difference to finding C15-F1: the base only EXTENDS an undeclared schema, and the
+// tool's output is exactly the base without that extension (the tool writes Root.Types() and Root.Directives(); the
+// undeclared schema is in neither and has no accessor).
+func c15ImplicitModel(b, back *sgen.Schema) string {
+	if back == nil || len(b.Blocks) == 0 {
+		return "none"
+	}
+	for _, blk := range b.Blocks {
+		if !blk.Extend {
+			return "none"
+		}
+	}
+	stripped := b.Clone()
+	stripped.Blocks = nil
+	if back.Canonical(sgen.CanonOpts{}) == normalizeDescs(stripped).Canonical(sgen.CanonOpts{}) {
+		return "implicit-schema-extension-not-written"
+	}
+	return "none"
 }
